@@ -68,7 +68,7 @@ class Ctx:
         shutil.copyfile(os.path.join(REPO, "go.sum"), os.path.join(HARNESS, "go.sum"))
         cmd = ["go", "build", "-tags", "verif", "-o", out]
         if os.environ.get("VERIF_COVER"):       # statement coverage of the library under the corpus (tools/coverage.sh)
-            cmd += ["-cover", "-coverpkg=github.com/contiv/libOpenflow/..."]
+            cmd += ["-cover", "-covermode=atomic", "-coverpkg=github.com/contiv/libOpenflow/...,./..."]
         if race:
             cmd.append("-race")
         cmd.append("./cmd/harness")
